@@ -9,6 +9,7 @@ mod foldprops;
 mod gen;
 mod lexprops;
 mod prng;
+mod readmeprops;
 mod ser;
 mod termprops;
 mod unicode;
@@ -60,6 +61,7 @@ fn main() {
         "C05F" => foldprops::run_c05fold(&o),
         "C02" => lexprops::run_c02(&o),
         "C05" => lexprops::run_c05(&o),
+        "C11" => readmeprops::run_c11(&o),
         _ => { eprintln!("unknown property {prop}"); std::process::exit(2); }
     };
     rep.write(&o.outdir).expect("write report");
